@@ -39,8 +39,8 @@ WHYS = {
     'cpa': ['traces_list', 'data_list', 'traces_3d', 'traces_1d', 'rows_more', 'rows_less', 'length', 'words'],
     'cpa_alt': ['traces_list', 'data_list', 'traces_3d', 'traces_1d', 'rows_more', 'rows_less', 'length', 'words'],
     'dpa': ['traces_list', 'data_list', 'traces_3d', 'traces_1d', 'rows_more', 'rows_less', 'length', 'words', 'dpa_range', 'dpa_dtype', 'data_float'],
-    'anova': ['traces_list', 'data_list', 'traces_3d', 'traces_1d', 'rows_more', 'rows_less', 'length', 'words', 'data_float', 'data_int64', 'auto_gt255', 'auto_neg'],
-    'tbuild': ['traces_list', 'data_list', 'traces_3d', 'traces_1d', 'rows_more', 'rows_less', 'length', 'two_words', 'data_float', 'data_int64', 'auto_gt255', 'auto_neg'],
+    'anova': ['traces_list', 'data_list', 'traces_3d', 'traces_1d', 'traces_float16', 'traces_complex', 'rows_more', 'rows_less', 'length', 'words', 'data_float', 'data_int64', 'auto_gt255', 'auto_neg'],
+    'tbuild': ['traces_list', 'data_list', 'traces_3d', 'traces_1d', 'traces_float16', 'traces_complex', 'rows_more', 'rows_less', 'length', 'two_words', 'data_float', 'data_int64', 'auto_gt255', 'auto_neg'],
     'tmatch': ['traces_list', 'data_list', 'traces_3d', 'traces_1d', 'rows_more', 'rows_less', 'length', 'before_build', 'hyp_undeclared'],
     'attack': ['sf_raises', 'length', 'rows_meta'],
 }
@@ -143,6 +143,10 @@ def _bad_args(case, op, last_good):
         return t.tolist(), d
     if why == 'data_list':
         return t, d.tolist()
+    if why == 'traces_float16':
+        return t.astype('float16'), d               # the compiled kernels have no half-precision version: refused inside the kernel call
+    if why == 'traces_complex':
+        return t.astype('complex64'), d
     if why == 'traces_3d':
         return np.stack([t, t], axis=2), d          # (traces, samples, 2): not a trace matrix
     if why == 'traces_1d':
